@@ -37,27 +37,31 @@ theorem hkey_filter_execCommand (key : BList) (s : State) (now : Nat) (c : Comma
       s.reruns.filter (fun r => skey r.cmd == some (true, key)) := by
   cases c with
   | browse ty' ch co =>
-    let x0 : State := { s with reruns := s.reruns.filter (fun r => !isBrowseOf ty' r),
-                               queriers := (ty', ch) :: s.queriers.filter (fun q => q.1 != ty') }
-    have h0 : x0.reruns.filter (fun r => skey r.cmd == some (true, key)) =
+    let x0 : List BList → State := fun cs =>
+      { s with reruns := s.reruns.filter (fun r => !isBrowseOf ty' r),
+               queriers := (ty', ch) :: s.queriers.filter (fun q => q.1 != ty'), cacheOnly := cs }
+    have h0 : ∀ cs, (x0 cs).reruns.filter (fun r => skey r.cmd == some (true, key)) =
         s.reruns.filter (fun r => skey r.cmd == some (true, key)) := by
+      intro cs
       apply filter_filter_of_imp
       intro r hr
       rw [isBrowseOf_iff]
       have : skey r.cmd = some (true, key) := by simpa using hr
       simp [this]
-    have h1 := key_filter_af (af_queryCacheForService x0 now ty' ch) (true, key)
+    have h1 := fun cs => key_filter_af (af_queryCacheForService (x0 cs) now ty' ch) (true, key)
     show (execBrowse s now false ty' 1 co ch).1.reruns.filter _ = _
     unfold execBrowse
-    simp only [Bool.false_eq_true, if_false]
-    split
-    · exact h1.trans h0
-    · simp only [addRerun, List.filter_append]
+    cases co
+    case true =>
+      simp only [Bool.false_eq_true, if_false, if_true]
+      exact (h1 _).trans (h0 _)
+    case false =>
+      simp only [Bool.false_eq_true, if_false, addRerun, List.filter_append]
       have : [({ next := now + 1 * 1000, cmd := RCmd.browse ty' (Sched.nextDelay 1) ch } : Rerun)].filter
           (fun r => skey r.cmd == some (true, key)) = [] := by
         simp [skey]
       rw [this, List.append_nil]
-      exact h1.trans h0
+      exact (h1 _).trans (h0 _)
   | stopBrowse ty' =>
     simp only [execCommand, execStopBrowse]
     split
